@@ -578,8 +578,17 @@ async fn stress_round(rng: &mut StdRng) -> usize {
     n
 }
 
+/// the events ShutdownTrace.tla knows; hooks of other modules (codecs, gauges, ...) share the global
+/// recorder and are not part of this specification
+const SHUTDOWN_EVENTS: &[&str] = &["CompletionBegin", "CompletionCancel", "CompletionEnd", "DropShutdown", "Exit", "GuardClone", "GuardDrop", "Reset",
+    "SessClosed", "SessEstablished", "SessNotified", "Sigint", "Submit", "Subscribe", "WaitBegin", "WaitEnd"];
+
 fn write_trace(path: &str, lines: &[String]) {
-    std::fs::write(path, lines.join("\n") + "\n").expect("write trace");
+    let keep: Vec<&String> = lines
+        .iter()
+        .filter(|l| l.split("\"ev\":\"").nth(1).and_then(|x| x.split('"').next()).map(|e| SHUTDOWN_EVENTS.contains(&e)).unwrap_or(false))
+        .collect();
+    std::fs::write(path, keep.iter().map(|s| s.as_str()).collect::<Vec<_>>().join("\n") + "\n").expect("write trace");
 }
 
 fn mode_stress(rep: &mut Report, trace: &str, rounds: usize) {
